@@ -567,7 +567,7 @@ def replay(case):
 
 
 MANIFEST = {
-    "text": "Exploration by runtime monitoring: on the templates and four sample documents, generated sequences of insert_style (every buildable family; common / automatic / unnamed automatic / default; objects and XML strings; repeated family+name; planted odfdo_auto_N names; more than ten unnamed styles), set_table_displayed, add_page_break_style, delete_styles and merge_styles_from are monitored step by step: an independent lxml census of both style parts is compared with the expectation of the rule table (required part and container, multiplicity one, nothing else changed), the returned name must resolve through Document.get_style to the very node inserted, generated names must be new for the family in every container, merging must yield the union with the source winning and the source unchanged, and a final save/reload must find every inserted style again. Held = census, lookups and reloads agreed on the sequences observed.",
+    "text": "Exploration by runtime monitoring: on the templates and four sample documents, generated sequences of insert_style (every buildable family; common / automatic / unnamed automatic / default; objects and XML strings; repeated family+name; planted odfdo_auto_N names; more than ten unnamed styles), set_table_displayed, add_page_break_style, delete_styles and merge_styles_from are monitored step by step: an independent lxml census of both style parts is compared with the expectation of the rule table (required part and container, multiplicity one, nothing else changed), the returned name must resolve through Document.get_style to the very node inserted, generated names must be new for the family in every container, merging must yield the union with the source winning and the source unchanged, and a final save/reload must find every inserted style again. Held = census, lookups and reloads agreed on the sequences observed. Also: font faces; themed repeated insertions under one name (identical object, other content, XML string), under names the part already declares in another container; the object handed in must be the node found in the document.",
     "note": "Trusted: the rule table in DESIGN C13 / ASSUMPTIONS; lxml census. The same family+name is not planted in both common and automatic kinds by the generator.",
     "technique": "runtime monitoring: independent XPath census of both parts compared with a rule-table expectation after every call + lookup and reload oracle",
 }
